@@ -479,7 +479,7 @@ Definition step (w : world) (t : traced) : res world out :=
       let w0 := W (<[s := MS rt_new hs hs]> (w_maps w)) (w_log w) (w_fuse w) in
       with_slot w0 s on perm
         (t <- hb_with_capacity c false cap ;;
-         match t with Some t => setm t ;;; ret OutU | None => fault_ FBadOp end)
+         match t with Some t => setm t ;;; ret OutU | None => fault_ FUnreachable end)
   | OInsert s k kid v => rmap OutOV (with_slot w s on perm (hasher_ok ;;; map_insert c k kid v))
   | OGet s variant k wv => with_slot w s on perm (hasher_ok ;;; map_get variant k wv)
   | ORemove s entry k =>
@@ -512,7 +512,7 @@ Definition step (w : world) (t : traced) : res world out :=
       rmap (fun _ => OutU)
         (with_slot w0 s on perm
            (t <- hb_with_capacity c false hint ;;
-            match t with Some t => setm t | None => fault_ FBadOp end ;;;
+            match t with Some t => setm t | None => fault_ FUnreachable end ;;;
             iterM (fun x => let '(k, kid, v) := x in
                             o <- map_insert c k kid v ;;
                             match o with Some v' => drop_val v' | None => ret tt end) items))
